@@ -13,6 +13,8 @@
 //	(f) every sequence of <= 3 character units (invalid bytes, characters whose case mapping changes
 //	    the byte length, ...) and every single byte inside every lexical container: before / between /
 //	    after the template tags, in strings, comments, heredocs, names (families2.go)
+//	(i) runnable statement templates with every optional part present / omitted in all combinations,
+//	    each executed along the path that uses the part (families3.go)
 //	(g) complete programs: every operand (string / heredoc interpolation, closure, ... x body) at every
 //	    list site where the parser speculates and parses the operand again; run (families2.go)
 //
@@ -100,7 +102,9 @@ func (a *acc) oneAlt(id string, fam string, mode int, src, alt string, note stri
 func (a *acc) oneX(id string, fam string, mode int, src string, run bool, alt string, note string) {
 	mkCase := func(fam string, mode int, src string, run bool, note string) kase {
 		k := mkCase(fam, mode, src, run, note)
-		if p := strings.SplitN(alt, "\x00", 3); len(p) == 3 {
+		if strings.HasPrefix(alt, optMark) {
+			k.Opt = strings.TrimPrefix(alt, optMark)
+		} else if p := strings.SplitN(alt, "\x00", 3); len(p) == 3 {
 			k.AltKind, k.Alt, k.Alt0 = p[0], p[1], p[2]
 		}
 		return k
@@ -505,7 +509,7 @@ func reduceWorker(w *pool.W, arg json.RawMessage) {
 		return
 	}
 	src, ok := caseSrc(sh.Case)
-	if !ok || sh.Case.Fam == "d-ladders" || sh.Case.Fam == "c-bytes" || sh.Case.Alt != "" {
+	if !ok || sh.Case.Fam == "d-ladders" || sh.Case.Fam == "c-bytes" || sh.Case.Alt != "" || sh.Case.Opt != "" {
 		return // (family g cases are one site x carrier x body each: already minimal)
 	}
 	same := func(s string) bool {
@@ -672,6 +676,17 @@ func caseFromID(id string) kase {
 				return mkCase("f-units-in-containers", unitContainers[ci].Mode, unitSrc(ci, l, q), false, "")
 			}
 		}
+	case "opt":
+		if len(p) == 4 {
+			md, _ := strconv.Atoi(p[1])
+			ti, _ := strconv.Atoi(p[2])
+			ix, _ := strconv.Atoi(p[3])
+			if ti < len(optTemplates) && ix < optTemplates[ti].count() {
+				k := mkCase("i-optional-parts", md, optTemplates[ti].build(md, optTemplates[ti].combo(ix)), true, "")
+				k.Opt = fmt.Sprintf("%s|%d", optTemplates[ti].Name, ix)
+				return k
+			}
+		}
 	case "rep":
 		if len(p) == 6 {
 			var n [5]int
@@ -706,7 +721,7 @@ func caseFromID(id string) kase {
 func main() {
 	if pool.IsWorker() {
 		defer cleanupScratch()
-		pool.Serve(map[string]pool.Handler{"tok": tokWorker, "str": strWorker, "bytes": byteWorker, "corpus": corpusWorker, "ladder": ladderWorker, "prog": progWorker, "unit": unitWorker, "reparse": reparseWorker, "reduce": reduceWorker, "one": oneWorker, "conc": concWorker})
+		pool.Serve(map[string]pool.Handler{"tok": tokWorker, "str": strWorker, "bytes": byteWorker, "corpus": corpusWorker, "ladder": ladderWorker, "prog": progWorker, "unit": unitWorker, "reparse": reparseWorker, "opt": optWorker, "reduce": reduceWorker, "one": oneWorker, "conc": concWorker})
 	}
 	c := ev.New("C01")
 	if c.Replay != "" {
@@ -786,6 +801,18 @@ func main() {
 			}
 		}
 	}
+	// (i) statement templates with every optional part present / omitted, run (families3.go)
+	for ti := range optTemplates {
+		for mode := 0; mode < 2; mode++ {
+			if quick && mode == 1 && !optTemplates[ti].BothModes {
+				continue
+			}
+			n := optTemplates[ti].count()
+			for from := 0; from < n; from += 400 {
+				shards = append(shards, pool.Shard{Kind: "opt", Arg: optShard{T: ti, Mode: mode, From: from, To: from + 400}})
+			}
+		}
+	}
 	// (f) character units inside lexical containers: sequences of <= 3 units (thorough: 4)
 	unitLen := 3
 	if !quick {
@@ -859,7 +886,7 @@ func main() {
 
 	// development aid: VERIF_C01_FAM=abcde restricts the families (evidence is then marked non-exhaustive)
 	if fam := os.Getenv("VERIF_C01_FAM"); fam != "" {
-		keep := map[string]string{"prog": "e", "corpus": "a", "tok": "b", "str": "s", "bytes": "c", "ladder": "d", "unit": "f", "reparse": "g"}
+		keep := map[string]string{"prog": "e", "corpus": "a", "tok": "b", "str": "s", "bytes": "c", "ladder": "d", "unit": "f", "reparse": "g", "opt": "i"}
 		filter := func(in []pool.Shard) (out []pool.Shard) {
 			for _, s := range in {
 				if strings.Contains(fam, keep[s.Kind]) {
@@ -1053,6 +1080,7 @@ func main() {
 	c.Set("unit_alphabet", fmt.Sprintf("%q", unitAlphabet))
 	c.Set("unit_sequences", fmt.Sprintf("%d (all 256 bytes, <= %d units, runs %v)", len(unitSeqs(unitLen)), unitLen, unitRuns))
 	c.Set("unit_containers", len(unitContainers))
+	c.Set("optional_part_templates", optSummary())
 	c.Set("reparse_sites", reparseSites)
 	c.Set("reparse_carriers", reparseCarriers)
 	c.Set("reparse_bodies", fmt.Sprintf("%d (heads %v x <= %d of %d pieces)", len(reparseBodies(bodyLen)), reparseHeads, bodyLen, len(reparsePieces)))
@@ -1094,6 +1122,9 @@ func main() {
 
 // altArg packs the neutral twin of a family (g) case for checkAlt ("" for every other family).
 func altArg(k kase) string {
+	if k.Opt != "" {
+		return optMark + k.Opt
+	}
 	if k.Alt == "" {
 		return ""
 	}
